@@ -34,9 +34,12 @@ class T3(object):
         self.P = np.array(P, dtype=float).reshape(-1, 3)
         self.Rs = [np.array(R) for R in Rs]
         self.proj = None
+        self.ties = False
 
     def sel(self, ids):
-        return T3(None if self.T is None else self.T[ids], self.P[ids], [self.Rs[i] for i in ids])
+        out = T3(None if self.T is None else self.T[ids], self.P[ids], [self.Rs[i] for i in ids])
+        out.ties = self.ties
+        return out
 
     def poses(self):
         return [rm.se3(R, p) for R, p in zip(self.Rs, self.P)]
@@ -113,10 +116,10 @@ def _merge(trs):
     T = np.concatenate([t.T for t in trs])
     P = np.concatenate([t.P for t in trs])
     Rs = [R for t in trs for R in t.Rs]
-    if len(set(T.tolist())) != len(T):
-        raise Skip("equal stamps in merge")
     order = np.argsort(T, kind="stable")
-    return T3(T[order], P[order], [Rs[i] for i in order])
+    out = T3(T[order], P[order], [Rs[i] for i in order])
+    out.ties = len(set(T.tolist())) != len(T)
+    return out
 
 
 def _align(tr, ref, o):
@@ -170,6 +173,7 @@ def _project(tr, plane):
     P[:, nd] = 0.0
     out = T3(tr.T, P, tr.Rs)
     out.proj = plane
+    out.ties = tr.ties
     return out
 
 
@@ -192,6 +196,29 @@ def _compare(exp, text, kind, what, exact):
             raise Mismatch("%s: exported stamps %s, expected %s" % (what, T[:6].tolist(), exp.T[:6].tolist()), observed="export_stamps", what=what)
     scale = max(float(np.abs(exp.P).max()), 1.0)
     ptol = 0.0 if exact else 1e-7 * scale
+    if getattr(exp, "ties", False) and len(P) == exp.n:
+        # equal stamps may come in any order: match every expected pose with an unused exported pose of the same stamp
+        used = set()
+        order = []
+        for k in range(exp.n):
+            hit = None
+            for j in range(len(P)):
+                if j in used or (kind == "tum" and T[j] != exp.T[k]):
+                    continue
+                if float(np.abs(P[j] - exp.P[k]).max()) <= max(ptol, 1e-12 * scale) and (exp.proj or float(np.abs(Rs[j] - exp.Rs[k]).max()) <= 1e-7):
+                    hit = j
+                    break
+            if hit is None:
+                raise Mismatch("%s: pose %d of the documented result (stamp %r) has no counterpart in the export" % (what, k, float(exp.T[k])),
+                               observed="export_positions", what=what)
+            used.add(hit)
+            order.append(hit)
+        # the export must be time-sorted: the expected stamps read in export order are non-decreasing
+        inv = np.argsort(order)
+        if np.any(np.diff(exp.T[inv]) < 0):
+            raise Mismatch("%s: exported poses are not sorted by time" % what, observed="export_stamps", what=what)
+        P, Rs = P[order], [Rs[i] for i in order]
+        T = None if T is None else T[order]
     dev = float(np.abs(P - exp.P).max())
     if dev > ptol:
         k = int(np.argmax(np.abs(P - exp.P).max(axis=1)))
@@ -245,7 +272,18 @@ def sub_traj(case):
         q = gen.rot_quat(tf["rot"])
         tv = np.asarray(tf["t"], dtype=float) * 5.0
         s = float(tf["s"]) if tf["sim3"] else 1.0
-        if tf["how"] == "json":
+        if tf.get("int_npy"):
+            # an integer-valued Sim(3) (quarter turns, integer scale and translation) stored with an integer dtype
+            Rq = gen.rot_matrix({"quarter": [tf["qk"] % 4, (tf["qk"] // 4) % 4, (tf["qk"] // 16) % 4]})
+            si = int(round(s)) if tf["sim3"] else 1
+            si = max(si, 1) if not tf["sim3"] else max(si, 2)
+            Mi = np.eye(4)
+            Mi[:3, :3] = np.round(si * Rq)
+            Mi[:3, 3] = np.round(tv)
+            tf_M = Mi.copy()
+            tpath = os.path.join(ind, "tf.npy")
+            np.save(tpath, Mi.astype(np.int64))
+        elif tf["how"] == "json":
             js = {"x": float(tv[0]), "y": float(tv[1]), "z": float(tv[2]), "qx": float(q[1]), "qy": float(q[2]), "qz": float(q[3]), "qw": float(q[0])}
             if tf["sim3"]:
                 js["scale"] = s
@@ -298,8 +336,13 @@ def sub_traj(case):
             if o.get("merge"):
                 cur = [_merge(cur)]
                 labels = ["merged_trajectory"]
+                if cur[0].ties and any(o.get(k) for k in ("sync", "align", "correct_scale", "align_origin", "transform")) :
+                    raise Skip("equal stamps in a merge followed by order-dependent steps")
             if o.get("t_offset"):
+                ties = [c.ties for c in cur]
                 cur = [T3(c.T + float(o["t_offset"]), c.P, c.Rs) for c in cur]
+                for c, tt in zip(cur, ties):
+                    c.ties = tt
             synced = (fmt == "kitti" and ref is not None) or any(o.get(k) for k in ("sync", "align", "correct_scale", "align_origin"))
             if synced:
                 new = []
@@ -366,7 +409,8 @@ st_spec = st.fixed_dictionaries({
     "step": st.sampled_from([0.05, 1.0, 10.0]), "still": st.sampled_from([0.0, 0.25]), "scale": st.sampled_from([1.0, 0.5, 3.0])})
 st_tf = st.fixed_dictionaries({
     "rot": gen.st_rotation_generic, "t": st.lists(gen.unit_f, min_size=3, max_size=3), "s": st.sampled_from([0.5, 2.0, 12.5]), "sim3": st.booleans(),
-    "how": st.sampled_from(["npy", "txt", "json"]), "right": st.booleans(), "invert": st.booleans(), "propagate": st.booleans()})
+    "how": st.sampled_from(["npy", "txt", "json"]), "right": st.booleans(), "invert": st.booleans(), "propagate": st.booleans(),
+    "int_npy": st.sampled_from([False, False, False, True]), "qk": st.integers(0, 63)})
 
 
 def _mk(fmt, ntraj, specs, refspec, has_ref, like_ref, t0, export, align_mode, correct_scale, n_to_align, sync, merge, downsample, mf, toff, tf, project):
@@ -399,8 +443,9 @@ def _mk(fmt, ntraj, specs, refspec, has_ref, like_ref, t0, export, align_mode, c
         if tf["sim3"]:
             tf["right"] = False  # a similarity is only defined from the left
         o["transform"] = tf
-    if merge:
-        # distinct stamps across the merged inputs: give every trajectory its own phase
+    if merge and not like_ref:
+        # distinct stamps across the merged inputs: give every trajectory its own phase (like_ref: keep the drawn phases,
+        # inputs may then share stamps - overlapping segments)
         trajs = [dict(s, phase=0.0007 * (k + 1)) for k, s in enumerate(trajs)]
     if o["align"] or o["correct_scale"]:
         like_ref = True  # a well-posed alignment problem
